@@ -668,7 +668,16 @@ pub(crate) fn shr(lhs: Number, rhs: Number, arena: &mut Arena) -> Result<Number,
                 }
             };
 
-            Ok(Number::arena_from(Integer::from(&*lhs >> rhs), arena))
+            // a negative number is shifted through its complement (-n - 1, which is
+            // not negative): flooring, as for small integers. dashu's `>>` on a negative
+            // IBig rounds towards zero when the shift reaches past its low zero words.
+            let res = if lhs.is_negative() {
+                !(!&*lhs >> rhs)
+            } else {
+                &*lhs >> rhs
+            };
+
+            Ok(Number::arena_from(res, arena))
         }
         other => Err(numerical_type_error(ValidType::Integer, other, stub_gen)),
     }
